@@ -369,12 +369,12 @@ Proof.
       apply ordl_nil; auto. }
     destruct mx as [|[|m]|y].
     + destruct (bound_val E mn) as [a|], (bound_val E BNone) as [b|]; try discriminate.
-      destruct (bounds_conflict a b); try discriminate. eapply Hgen; eauto.
+      destruct (bounds_conflict a b); [match type of H with match ?X with _ => _ end = _ => destruct X; discriminate end|]. eapply Hgen; eauto.
     + inversion H; subst. repeat split; auto. rewrite ord_list. apply ordl_nil; auto.
     + destruct (bound_val E mn) as [a|], (bound_val E (BLit (S m))) as [b|]; try discriminate.
-      destruct (bounds_conflict a b); try discriminate. eapply Hgen; eauto.
+      destruct (bounds_conflict a b); [match type of H with match ?X with _ => _ end = _ => destruct X; discriminate end|]. eapply Hgen; eauto.
     + destruct (bound_val E mn) as [a|], (bound_val E (BVar y)) as [b|]; try discriminate.
-      destruct (bounds_conflict a b); try discriminate. eapply Hgen; eauto.
+      destruct (bounds_conflict a b); [match type of H with match ?X with _ => _ end = _ => destruct X; discriminate end|]. eapply Hgen; eauto.
   - (* Expect *) contradiction.
   - (* ExpectNot *) destruct (PEG n E e p) as [| | |v1 p1]; try discriminate.
     inversion H; subst. repeat split; auto; try (apply ord_atom; [lia | exact I]).
